@@ -302,6 +302,8 @@ def run(ctx: Ctx):
             f"the packed and the padded form disagree for the other layout") if bad_axes else "", rel,
            bad_axes[0][0].lineno if bad_axes else kp.line, sample=axis_sites)
     table_decided = _seqlp_table(ctx, kt, rel)
+    from . import string_common as _SC7
+    _SC7.lens_helper_table(ctx, "S2")
     if not table_decided:
       col.ob("G12", "S2", f"{rel}::_sequence_log_probs_tensor::up-to-and-including-first-eos", okl and okm,
              f"positions are dropped under `{u(lm[0]) if lm else None}` with length `{u(lens[0].value) if lens else None}`; "
@@ -589,6 +591,31 @@ def _log_prob_input_contract(ctx: Ctx, dist, lp, rel: str):
     bc = any(call_name(c) in ("torch.broadcast_shapes", "broadcast_shapes", "torch.broadcast_to") or
              (isinstance(c.func, ast.Attribute) and c.func.attr in ("expand", "broadcast_to") and vname in {x.id for x in ast.walk(c.func.value) if isinstance(x, ast.Name)})
              for c in own_calls(lp.node))
+    # ... and the shape the result is given back in is read off the value AFTER it was broadcast: read before, it is the caller's
+    # un-broadcast batch shape, and the per-element scores (one per sample and batch element) do not fit it
+    exp_defs = [d_ for d_ in rd.defs if d_.name == vname and d_.value is not None and any(
+        isinstance(c_, ast.Call) and (isinstance(c_.func, ast.Attribute) and c_.func.attr in ("expand", "broadcast_to") or call_name(c_) in ("torch.broadcast_to",))
+        for c_ in ast.walk(d_.value))]
+    stale_shapes = []
+    n_shapes = 0
+    for d_ in rd.defs:
+        if d_.kind == "assign" and d_.value is not None and d_.name != vname:
+            for x in ast.walk(d_.value):
+                if isinstance(x, ast.Attribute) and x.attr == "shape" and isinstance(x.value, ast.Name) and x.value.id == vname:
+                    uses_later = any(isinstance(y, ast.Name) and y.id == d_.name and isinstance(y.ctx, ast.Load) and any(dd is d_ for dd in rd.defs_of(y))
+                                     and any(isinstance(pp, ast.Call) and (call_name(pp) in ("torch.zeros", "torch.empty", "torch.full") or (
+                                         isinstance(pp.func, ast.Attribute) and pp.func.attr in ("view", "reshape", "expand")))
+                                         for pp in [pm.get(y)]) for y in own_nodes(lp.node))
+                    if not uses_later:
+                        continue
+                    n_shapes += 1
+                    if exp_defs and not any(e_ in list(rd.defs_of(x.value)) for e_ in exp_defs):
+                        stale_shapes.append(d_)
+    col.ob("G10", "S4", f"{rel}::SequentialLanguageModelDistribution.log_prob::result-shape-read-after-the-broadcast", not stale_shapes,
+           (f"`{u(stale_shapes[0].stmt)[:70]}` reads the value's shape before the value is broadcast against batch_shape and the result is reshaped "
+            f"with it: for a value that only broadcasts (enumerate_support(expand=False), a single sequence) the scores - one per sample and "
+            f"batch element - do not fit the stale shape and log_prob raises") if stale_shapes else "", rel,
+           stale_shapes[0].line if stale_shapes else lp.line, sample=dict(shapes=n_shapes))
     col.ob("G19", "S4", f"{rel}::SequentialLanguageModelDistribution.log_prob::value-broadcast-against-batch-shape", bc,
            "log_prob reshapes the value as if it already carried the full batch dimension; validation (and "
            "enumerate_support(expand=False)) only promise that it broadcasts with batch_shape: the support then sums to 0.92 "
